@@ -68,7 +68,9 @@ fn plan_cycle(seed: &CycleSeed, ids: Vec<usize>) -> Active {
                 if (shape >> i) & 1 == 1 {
                     items.push((key, Work::SafeRead(i)));
                 }
-                items.push((key.saturating_add(1), Work::Put(i, data_bytes(data ^ 0x5555, order))));
+                // ... with other bytes, or (every other time) with exactly the same bytes again
+                let again = if (shape >> (i + 3)) & 1 == 1 { bytes.clone() } else { data_bytes(data ^ 0x5555, order) };
+                items.push((key.saturating_add(1), Work::Put(i, again)));
             }
         }
     }
@@ -131,7 +133,17 @@ fn next_call(a: &mut Active, m: &Model) -> Result<Option<Call>, ()> {
                 }
             }
         }
-        Work::Put(i, d) => m.present(a.ids[i]).then(|| Call::Put(a.ids[i], d)),
+        Work::Put(i, d) => m.present(a.ids[i]).then(|| {
+            // one datum in four arrives through merge() of a single-vertex tree instead of put()
+            // (when the vertex is the root of a tree, as merge() requires)
+            let v = a.ids[i];
+            let h = crate::calls::TreeSpec { cap: 2, nodes: vec![crate::calls::TNode { id: 1, parent: None, label: None, data: Some(d.clone()), read: false }], extras: vec![], pairs_first: false, segment: 0 };
+            if d.len() % 4 == 1 && crate::interp::plan_merge(m, &h, v).is_some() {
+                Call::Merge { h, left: v }
+            } else {
+                Call::Put(v, d)
+            }
+        }),
         Work::SafeRead(i) => {
             let v = a.ids[i];
             if m.present(v) {
